@@ -765,7 +765,82 @@ func c09Src(nodes []*cnode) string {
 // (ifequal on same-kind scalars only).
 func c09Judged(nodes []*cnode) bool { return true }
 
+// ---- re-entrant loops: a for loop inside a macro that calls itself from the loop body (tree walk) ----------------
+
+type C09Node struct {
+	Name string
+	Kids []*C09Node
+}
+
+func c09GenTree(r *Rng, depth int, n *int) *C09Node {
+	*n++
+	nd := &C09Node{Name: fmt.Sprintf("n%d", *n)}
+	if depth > 0 {
+		for k := r.Intn(4); k > 0; k-- {
+			nd.Kids = append(nd.Kids, c09GenTree(r, depth-1, n))
+		}
+	}
+	return nd
+}
+
+// reference of the walk macro below; cyc is the per-render counter of the one cycle tag
+func c09Walk(n *C09Node, cyc *int, sb *strings.Builder) {
+	for i, k := range n.Kids {
+		l := len(n.Kids)
+		fmt.Fprintf(sb, "<%d/%d", i+1, l-i)
+		if i == 0 {
+			sb.WriteString("F")
+		}
+		fmt.Fprintf(sb, ":%s", k.Name)
+		c09Walk(k, cyc, sb)
+		fmt.Fprintf(sb, "|%d/%d/%d", i+1, i, l-i-1)
+		if i == l-1 {
+			sb.WriteString("L")
+		}
+		sb.WriteString([]string{"x", "y", "z"}[*cyc%3])
+		*cyc++
+		sb.WriteString(">")
+	}
+}
+
+const c09WalkSrc = `{% macro walk(n) %}{% for k in n.Kids %}<{{ forloop.Counter }}/{{ forloop.Revcounter }}{% if forloop.First %}F{% endif %}:{{ k.Name }}{{ walk(k) }}|{{ forloop.Counter }}/{{ forloop.Counter0 }}/{{ forloop.Revcounter0 }}{% if forloop.Last %}L{% endif %}{% cycle "x" "y" "z" %}>{% endfor %}{% endmacro %}{{ walk(root) }}`
+
+func c09Reentrant(c *C) {
+	cnt := 0
+	root := c09GenTree(c.R, 1+c.R.Intn(4), &cnt)
+	var sb strings.Builder
+	cyc := 0
+	c09Walk(root, &cyc, &sb)
+	want := sb.String()
+	set, _ := newSet(map[string]string{"/walk.tpl": strings.Replace(strings.Replace(c09WalkSrc, "{% macro walk(n) %}", "{% macro walk(n) export %}", 1), "{{ walk(root) }}", "", 1)})
+	src := c09WalkSrc
+	if c.R.Bool() {
+		src = `{% import "/walk.tpl" walk %}{{ walk(root) }}`
+	}
+	tpl, err := set.FromString(src)
+	if err != nil {
+		c.Fail("reference-mismatch", D{"source": q(src), "compile_err": err.Error()})
+		return
+	}
+	for run := 0; run < 2; run++ {
+		out, xerr := tpl.Execute(pongo2.Context{"root": root})
+		c.Eval(1)
+		if xerr != nil || out != want {
+			c.Fail("reference-mismatch", D{"source": q(src), "tree_nodes": cnt, "output": q(out), "expected": q(want), "exec_err": errStr(xerr), "execution": run + 1, "why": "a loop that is re-entered (recursive macro) while an outer run of the same loop is in progress"})
+			return
+		}
+	}
+	c.Cover("reentrant_loop")
+	if cnt > 2 {
+		c.Nontrivial(fmt.Sprintf("walk:%s", want))
+	}
+}
+
 func c09Run(c *C) {
+	if c.Idx%25 == 7 {
+		c09Reentrant(c)
+		return
+	}
 	g := &c09Gen{r: c.R}
 	tree := g.body(2 + c.R.Intn(3))
 	src := c09Src(tree)
@@ -806,7 +881,7 @@ func init() {
 		},
 		Run: c09Run,
 		Rule: "random nestings (depth <= 4) of if/elif/else, ifequal, ifnotequal, firstof, for (+empty, reversed, sorted, key/value over maps with sorted), forloop.Counter/Counter0/Revcounter/Revcounter0/First/Last and Parentloop chains, cycle (plain, as name, as name silent, {% cycle name %}), ifchanged (content form and watched values, with else) over lists, strings (multi-byte), maps, nil, empty and non-iterable values; " +
-			"each program is rendered on a fresh compile and compared byte for byte with an independent reference interpreter of the generated tree (per-render, per-tag cycle counters; ifchanged against the previous execution of the tag; autoescaped printing). distinct_nontrivial = distinct programs containing a loop or a branch.",
+			"each program is rendered on a fresh compile and compared byte for byte with an independent reference interpreter of the generated tree (per-render, per-tag cycle counters; ifchanged against the previous execution of the tag; autoescaped printing). One case in 25 is a re-entrant loop: a macro (local or imported) that walks a random tree of depth <= 4 with a for loop and calls itself from the loop body, printing every forloop field before and after the recursive call and a cycle tag, rendered twice. distinct_nontrivial = distinct programs containing a loop or a branch.",
 		MinNontriv:  5000,
 		Assumptions: []string{"maps are iterated with 'sorted' only", "ifchanged is generated outside loops or in a loop that is not nested in another loop (Django resets per parent iteration, pongo2 does not: unspecified)", "ifequal operands are scalars; values of different kinds compare unequal"},
 	})
